@@ -8,3 +8,23 @@ impl JsError {
 
 /// sequence of references to the elements of a sequence (what a slice iterator yields)
 pub open spec fn refs<'a, T>(s: Seq<T>) -> Seq<&'a T> { s.map_values(|x: T| &x) }
+
+/// opaque stand-in for a type whose content no obligation of the unit looks at; it still serializes (uninterpreted bytes)
+macro_rules! opaque_types { ($($n:ident),* $(,)?) => { verus!{ $(
+    #[verifier::external_body] pub struct $n { _p: core::marker::PhantomData<u8> }
+    impl $n {
+        pub uninterp spec fn bytes_of(&self) -> Seq<u8>;
+        #[verifier::external_body] pub fn to_bytes(&self) -> (r: Vec<u8>) ensures r@ == self.bytes_of() { unimplemented!() }
+    }
+)* } } }
+
+// std combinators that vstd does not specify in this build (definitions of the std library, ASSUMED)
+pub assume_specification<T, E> [Result::<T, E>::unwrap_or] (r: Result<T, E>, d: T) -> (x: T)
+    ensures r is Ok ==> x == r->Ok_0, r is Err ==> x == d;
+
+pub assume_specification<T> [Option::<Option<T>>::flatten] (o: Option<Option<T>>) -> (x: Option<T>)
+    ensures o is None ==> x is None, o is Some ==> x == o->Some_0;
+pub assume_specification<T, E> [Option::<Result<T, E>>::transpose] (o: Option<Result<T, E>>) -> (r: Result<Option<T>, E>)
+    ensures o is None ==> r == Ok::<Option<T>, E>(None),
+            o is Some && o->Some_0 is Ok ==> r == Ok::<Option<T>, E>(Some(o->Some_0->Ok_0)),
+            o is Some && o->Some_0 is Err ==> r is Err;
